@@ -88,20 +88,33 @@ func c03Extra(tier string, seed uint64, i int) []h.Result {
 // ---- C17 scaling series: cost per input size must stay (near) linear
 
 type scaleFamily struct {
-	name string
-	gen  func(n int) string // statement(s) of func atom
+	name  string
+	gen   func(n int) string // statement(s) of func atom
+	decl  func(n int) string // package-level declarations that grow with n (optional)
+	sizes []int              // default 100, 1000, 10000
+}
+
+// latticeDecl: 2 struct types per level, each embedding (by pointer) both types of the next level: 2n+2 types, 2^n
+// embedding paths. Member lookup must visit each type once, not each path.
+func latticeDecl(n int) string {
+	var sb strings.Builder
+	for k := 0; k < n; k++ {
+		fmt.Fprintf(&sb, "type LA%d struct {\n\t*LA%d\n\t*LB%d\n}\ntype LB%d struct {\n\t*LA%d\n\t*LB%d\n}\n", k, k+1, k+1, k, k+1, k+1)
+	}
+	fmt.Fprintf(&sb, "type LA%d struct{ qa int }\ntype LB%d struct{ qb int }\ntype LX struct{ lx int }\ntype LTop struct {\n\t*LA0\n\tLX\n}\nvar ltop LTop\n", n, n)
+	return sb.String()
 }
 
 var c17Scale = []scaleFamily{
-	{"string literal of n bytes", func(n int) string { return "_ = \"" + strings.Repeat("a", n) + "\"" }},
-	{"integer literal of n digits", func(n int) string { return "const k = " + strings.Repeat("7", n) + "; _ = k > 0" }},
-	{"parenthesised nesting depth n", func(n int) string { return "_ = " + strings.Repeat("(", n) + "i" + strings.Repeat(" + 1)", n) }},
-	{"left-associated chain of n additions", func(n int) string { return "_ = i" + strings.Repeat(" + i", n) }},
-	{"constant chain of n additions", func(n int) string { return "_ = 1" + strings.Repeat(" + 1", n) }},
-	{"constant string concatenation of n pieces", func(n int) string { return "_ = \"a\"" + strings.Repeat(" + \"a\"", n) }},
-	{"call with n arguments", func(n int) string { return "_ = vari(" + strings.TrimSuffix(strings.Repeat("i, ", n), ", ") + ")" }},
-	{"slice literal with n elements", func(n int) string { return "_ = []int{" + strings.TrimSuffix(strings.Repeat("1, ", n), ", ") + "}" }},
-	{"map literal with n entries", func(n int) string {
+	{name: "string literal of n bytes", gen: func(n int) string { return "_ = \"" + strings.Repeat("a", n) + "\"" }},
+	{name: "integer literal of n digits", gen: func(n int) string { return "const k = " + strings.Repeat("7", n) + "; _ = k > 0" }},
+	{name: "parenthesised nesting depth n", gen: func(n int) string { return "_ = " + strings.Repeat("(", n) + "i" + strings.Repeat(" + 1)", n) }},
+	{name: "left-associated chain of n additions", gen: func(n int) string { return "_ = i" + strings.Repeat(" + i", n) }},
+	{name: "constant chain of n additions", gen: func(n int) string { return "_ = 1" + strings.Repeat(" + 1", n) }},
+	{name: "constant string concatenation of n pieces", gen: func(n int) string { return "_ = \"a\"" + strings.Repeat(" + \"a\"", n) }},
+	{name: "call with n arguments", gen: func(n int) string { return "_ = vari(" + strings.TrimSuffix(strings.Repeat("i, ", n), ", ") + ")" }},
+	{name: "slice literal with n elements", gen: func(n int) string { return "_ = []int{" + strings.TrimSuffix(strings.Repeat("1, ", n), ", ") + "}" }},
+	{name: "map literal with n entries", gen: func(n int) string {
 		var sb strings.Builder
 		sb.WriteString("_ = map[int]int{")
 		for k := 0; k < n; k++ {
@@ -109,25 +122,63 @@ var c17Scale = []scaleFamily{
 		}
 		return sb.String() + "}"
 	}},
-	{"n statements", func(n int) string { return strings.TrimSuffix(strings.Repeat("i++; ", n), "; ") }},
-	{"n nested blocks", func(n int) string { return strings.Repeat("{ ", n) + "i++" + strings.Repeat(" }", n) }},
-	{"n nested ifs", func(n int) string { return strings.Repeat("if b { ", n) + "i++" + strings.Repeat(" }", n) }},
-	{"n labels", func(n int) string {
+	{name: "n statements", gen: func(n int) string { return strings.TrimSuffix(strings.Repeat("i++; ", n), "; ") }},
+	{name: "n nested blocks", gen: func(n int) string { return strings.Repeat("{ ", n) + "i++" + strings.Repeat(" }", n) }},
+	{name: "n nested ifs", gen: func(n int) string { return strings.Repeat("if b { ", n) + "i++" + strings.Repeat(" }", n) }},
+	{name: "n labels", gen: func(n int) string {
 		var sb strings.Builder
 		for k := 0; k < n; k++ {
 			fmt.Fprintf(&sb, "L%d: for { break L%d }; ", k, k)
 		}
 		return strings.TrimSuffix(sb.String(), "; ")
 	}},
-	{"n local declarations", func(n int) string {
+	{name: "n local declarations", gen: func(n int) string {
 		var sb strings.Builder
 		for k := 0; k < n; k++ {
 			fmt.Fprintf(&sb, "x%d := %d; _ = x%d; ", k, k, k)
 		}
 		return strings.TrimSuffix(sb.String(), "; ")
 	}},
-	{"shift by a huge constant", func(n int) string { return fmt.Sprintf("_ = 1 << %d", n*1000000) }},
-	{"selector chain of n members", func(n int) string { return "var r Rec; _ = r" + strings.Repeat(".Next", n) }},
+	{name: "shift by a huge constant", gen: func(n int) string { return fmt.Sprintf("_ = 1 << %d", n*1000000) }},
+	{name: "selector chain of n members", gen: func(n int) string { return "var r Rec; _ = r" + strings.Repeat(".Next", n) }},
+	{name: "member found after an embedding lattice of depth n (2^n paths)", gen: func(n int) string { return "_ = ltop.lx" }, decl: latticeDecl, sizes: []int{10, 18, 26}},
+	{name: "member missing from an embedding lattice of depth n (2^n paths)", gen: func(n int) string { return "_ = ltop.nosuch" }, decl: latticeDecl, sizes: []int{10, 18, 26}},
+	{name: "member at the bottom of an embedding lattice of depth n", gen: func(n int) string { return "_ = ltop.qb" }, decl: latticeDecl, sizes: []int{10, 18, 26}},
+	{name: "method promoted through an embedding chain of depth n", gen: func(n int) string { return "var c0 CH0; _ = c0.Deep()" }, decl: func(n int) string {
+		var sb strings.Builder
+		for k := 0; k < n; k++ {
+			fmt.Fprintf(&sb, "type CH%d struct{ CH%d }\n", k, k+1)
+		}
+		fmt.Fprintf(&sb, "type CH%d struct{}\nfunc (CH%d) Deep() int { return 1 }\n", n, n)
+		return sb.String()
+	}, sizes: []int{50, 500, 5000}},
+	{name: "last field of a struct with n fields", gen: func(n int) string { return fmt.Sprintf("var w Wide; _ = w.F%d", n-1) }, decl: func(n int) string {
+		var sb strings.Builder
+		sb.WriteString("type Wide struct {\n")
+		for k := 0; k < n; k++ {
+			fmt.Fprintf(&sb, "\tF%d int\n", k)
+		}
+		return sb.String() + "}\n"
+	}},
+	{name: "field promoted from the last of n embedded structs", gen: func(n int) string { return fmt.Sprintf("var w WideE; _ = w.G%d", n-1) }, decl: func(n int) string {
+		var sb strings.Builder
+		for k := 0; k < n; k++ {
+			fmt.Fprintf(&sb, "type WE%d struct{ G%d int }\n", k, k)
+		}
+		sb.WriteString("type WideE struct {\n")
+		for k := 0; k < n; k++ {
+			fmt.Fprintf(&sb, "\tWE%d\n", k)
+		}
+		return sb.String() + "}\n"
+	}, sizes: []int{30, 300, 3000}},
+	{name: "last method of an interface with n methods", gen: func(n int) string { return fmt.Sprintf("var w WideI; w.M%d()", n-1) }, decl: func(n int) string {
+		var sb strings.Builder
+		sb.WriteString("type WideI interface {\n")
+		for k := 0; k < n; k++ {
+			fmt.Fprintf(&sb, "\tM%d()\n", k)
+		}
+		return sb.String() + "}\n"
+	}, sizes: []int{30, 300, 3000}},
 }
 
 func c17ScaleN(string) int { return len(c17Scale) }
@@ -136,11 +187,17 @@ func c17ScaleRun(tier string, seed uint64, i int) []h.Result {
 	fam := c17Scale[i]
 	res := h.Result{Key: "scaling: " + fam.name, Verdict: h.Held, NonTrivial: true}
 	sizes := []int{100, 1000, 10000}
+	if fam.sizes != nil {
+		sizes = fam.sizes
+	}
 	drive.Build(sharedUniverse(), []string{gen.Atom{Stmt: "_ = i"}.Program()}, drive.Opt{NoCompare: true, NoRef: true}) // warm-up (importer)
 	var allocs []uint64
 	var cpus []float64
 	for _, n := range sizes {
 		a := gen.Atom{Cat: "scale", Decl: "type Rec struct{ Next *Rec }", Stmt: fam.gen(n)}
+		if fam.decl != nil {
+			a.Decl += "\n" + fam.decl(n)
+		}
 		src := a.Program()
 		o := drive.Build(sharedUniverse(), []string{src}, drive.Opt{NoCompare: true, NoRef: true, NoWrite: true})
 		if o.Status == "crash" {
@@ -155,7 +212,7 @@ func c17ScaleRun(tier string, seed uint64, i int) []h.Result {
 		cpus = append(cpus, o.BuildCPU)
 		res.Count("operations", int64(o.Ops))
 	}
-	res.Detail = fmt.Sprintf("n=100/1000/10000: allocated %d / %d / %d bytes, cpu %.3f / %.3f / %.3f s", allocs[0], allocs[1], allocs[2], cpus[0], cpus[1], cpus[2])
+	res.Detail = fmt.Sprintf("n=%v: allocated %d / %d / %d bytes, cpu %.3f / %.3f / %.3f s", sizes, allocs[0], allocs[1], allocs[2], cpus[0], cpus[1], cpus[2])
 	const slack = 8 << 20
 	for k := 1; k < len(sizes); k++ {
 		if allocs[k] > 20*allocs[k-1]+slack {
@@ -165,7 +222,7 @@ func c17ScaleRun(tier string, seed uint64, i int) []h.Result {
 	}
 	if res.Verdict == h.Held && cpus[2] > 5 {
 		res.Verdict, res.Kind = h.Violated, "slow"
-		res.Detail = "more than 5 CPU-s for n=10000; " + res.Detail
+		res.Detail = fmt.Sprintf("more than 5 CPU-s for n=%d; ", sizes[2]) + res.Detail
 	}
 	res.Count("scaling_families", 1)
 	return []h.Result{res}
